@@ -1,43 +1,79 @@
-"""Per-property configuration of ./check (which Lean modules hold the
-obligations, which correspondence streams and scenario sets tie them to /repo)."""
+"""Per-property configuration of ./check: which Lean modules hold the
+obligations, which correspondence streams and scenario sets tie them to /repo."""
+import os
+import sys
+
+_here = os.path.dirname(os.path.abspath(__file__))
+sys.path.insert(0, _here)
+from factmap import FACTMAP  # noqa: E402
+
+_LEAN = os.path.join(os.path.dirname(_here), "lean")
 
 TRUSTED_BASE = [
     "Lean 4.33.0 kernel (leanchecker re-check in the thorough tier); axioms allowed: propext, Classical.choice, Quot.sound (audited with #print axioms on every run)",
-    "harness `gen` (value dump through verif_export.go + go/ast fact extractor) regenerates Tea/Gen/* from /repo's working tree on every run",
-    "correspondence harness: generators, canonical printers on both sides, line-by-line diff of implementation vs compiled Lean model",
+    "harness `gen` (value dump through verif_export.go + go/ast fact extractor) regenerates Tea/Gen/* from /repo's working tree on every run; bridge theorems compare it with the frozen Tea/Doc/*",
+    "correspondence harness: generators, canonical printers on both sides, line-by-line diff of implementation vs compiled Lean model; scenario harness: recording model, pause points, watchdogs",
 ]
 
 INPUT_TRUST = [
-    "modelled, validated by the detect/reader streams: Go's unicode/utf8.DecodeRune, strconv.Atoi saturation, leftmost-first matching of the two fixed regular expressions",
+    "modelled, validated by the detect/reader streams: Go's unicode/utf8.DecodeRune/FullRune, strconv.Atoi saturation, leftmost-first matching of the two fixed regular expressions",
+]
+RENDER_TRUST = [
+    "text metric: one cell per byte (ASCII); ansi.StringWidth/Truncate are library code and are exercised only through the streams",
+    "terminal semantics of Tea/VT (xterm-style pending wrap, erase from cursor, 1049 save/restore, no reflow), cross-checked against the Go interpreter by the `vt` stream",
+]
+RUNTIME_TRUST = [
+    "modelled, not verified: Go's unbuffered channels, select, context cancellation, sync.Once/Mutex, goroutine fairness",
 ]
 
-PROPS = {
-    "C09": {
-        "modules": ["Tea.Props.C09", "Tea.Props.BridgeInput"],
-        "streams": [
-            {"name": "detect", "quick": 40000, "thorough": 400000},
-            {"name": "reader", "quick": 8000, "thorough": 60000},
-        ],
-        "rule": "detect: all buffers of <=1 byte and 13x256 (thorough: all) of 2 bytes, all words <=3 (thorough 4) over an 18-byte branch alphabet, every documented key alone/alt/with a tail, all 256 SGR codes x {M,m}, all X10 codes, then seeded structured/mutated/malformed buffers, each with both canHaveMoreData flags; reader: seeded event streams under whole/full-256/random/byte-wise chunkings. distinct = distinct op lines; non-trivial = not the empty buffer",
-        "trusted": INPUT_TRUST,
-        "assumptions": ["the reader goroutine's cancellation (ctx.Done arm of the send) is covered by the C04 scenarios, not by this model"],
-    },
-    "C01": {"modules": [], "scenarios": ["fold"], "rule": "see scenario rule"},
-    "C02": {"modules": [], "scenarios": ["cmds"], "rule": "see scenario rule"},
-    "C03": {"modules": [], "scenarios": ["seq"], "rule": "see scenario rule"},
-    "C04": {"modules": [], "scenarios": ["term"], "rule": "see scenario rule"},
-    "C13": {"modules": [], "scenarios": ["api"], "rule": "see scenario rule"},
-    "C16": {"modules": [], "scenarios": ["filter"], "rule": "see scenario rule"},
-    "C20": {
-        "modules": ["Tea.Props.C20"],
-        "streams": [{"name": "every", "quick": 6000, "thorough": 200000}],
-        "scenarios": ["timing"],
-        "rule": "every: Every's delay expression evaluated by Go's time package vs the Lean model on boundary instants (+-1ns), zero/negative/huge durations and seeded random instants; timing: real Tick/Every commands. distinct = distinct (instant, duration) lines; non-trivial = positive duration",
-        "trusted": ["Go timers do not fire before their duration has elapsed (Timer.notEarly hypothesis; sampled by the timing scenario)"],
-    },
-    "C15": {"modules": [], "streams": [{"name": "reader", "quick": 8000, "thorough": 60000}], "rule": "see C09"},
-    "C06": {"modules": [], "streams": [{"name": "render", "quick": 3000, "thorough": 100000}], "rule": "render histories"},
-    "C14": {"modules": [], "streams": [{"name": "render", "quick": 3000, "thorough": 100000}], "rule": "render histories"},
-    "C05": {"modules": [], "scenarios": ["modes"], "rule": "see scenario rule"},
-    "C12": {"modules": [], "scenarios": ["modes"], "rule": "see scenario rule"},
+DETECT = {"name": "detect", "quick": 40000, "thorough": 400000}
+READER = {"name": "reader", "quick": 8000, "thorough": 60000}
+RENDER = {"name": "render", "quick": 3000, "thorough": 60000}
+VT = {"name": "vt", "quick": 1500, "thorough": 30000}
+
+INPUT_RULE = ("detect: all buffers of <=1 byte and 13x256 (thorough: all) of 2 bytes, all words <=3 (thorough 4) over an 18-byte branch alphabet, every documented key alone/alt/with a tail, all 256 SGR codes x {M,m}, all X10 codes, huge numeric parameters, then seeded structured/mutated/malformed buffers, each with both canHaveMoreData flags; "
+              "reader: every documented key between two random events, every event kind at every alignment against the 256-byte buffer, pastes of 0..513 (thorough 4096) bytes cut after the start marker, seeded event streams under whole/full-256/random/byte-wise chunkings. distinct = distinct op lines; non-trivial = not the empty buffer")
+RENDER_RULE = ("render/vt: seeded histories of 1..40 renderer operations (views derived from the previous one: change/append/drop lines, widths W-1/W/W+1, empty and blank lines, taller than H; prints of up to 2W+1 cells; alt switches, ClearScreen, repaint, resizes in alt, mode ops, stop/kill) at W in {1..8,10,12,80}, H in {1..6,8,24}, any initial cursor row; a fixed corpus of the shapes the properties single out runs first. distinct = distinct history lines")
+
+_CFG = {
+    "C01": {"scenarios": ["fold", "term"], "trusted": RUNTIME_TRUST},
+    "C02": {"scenarios": ["cmds"], "trusted": RUNTIME_TRUST},
+    "C03": {"scenarios": ["seq"], "trusted": RUNTIME_TRUST},
+    "C04": {"scenarios": ["term"], "trusted": RUNTIME_TRUST},
+    "C05": {"scenarios": ["modes"], "trusted": RENDER_TRUST},
+    "C06": {"streams": [RENDER, VT], "rule": RENDER_RULE, "trusted": RENDER_TRUST},
+    "C07": {"streams": [RENDER], "rule": RENDER_RULE, "trusted": RENDER_TRUST},
+    "C08": {"streams": [DETECT, READER], "rule": INPUT_RULE, "trusted": INPUT_TRUST},
+    "C09": {"streams": [DETECT, READER], "rule": INPUT_RULE, "trusted": INPUT_TRUST,
+            "assumptions": ["the reader goroutine's cancellation (ctx.Done arm of the send) is covered by the C04 scenarios, not by this model"]},
+    "C10": {"streams": [DETECT, READER], "rule": INPUT_RULE, "trusted": INPUT_TRUST},
+    "C11": {"streams": [DETECT], "rule": INPUT_RULE, "trusted": INPUT_TRUST},
+    "C12": {"scenarios": ["modes"], "trusted": RENDER_TRUST},
+    "C13": {"scenarios": ["api"], "trusted": RUNTIME_TRUST},
+    "C14": {"streams": [RENDER, VT], "rule": RENDER_RULE, "trusted": RENDER_TRUST},
+    "C15": {"streams": [READER], "rule": INPUT_RULE, "trusted": INPUT_TRUST},
+    "C16": {"scenarios": ["filter"], "trusted": RUNTIME_TRUST},
+    "C19": {"streams": [RENDER], "rule": RENDER_RULE, "trusted": RENDER_TRUST},
+    "C20": {"streams": [{"name": "every", "quick": 6000, "thorough": 200000}], "scenarios": ["timing"],
+            "rule": "every: Every's delay expression evaluated by Go's time package vs the Lean model on boundary instants (+-1ns), zero/negative/huge durations and seeded random instants; timing: real Tick/Every commands. distinct = distinct (instant, duration) lines; non-trivial = positive duration",
+            "trusted": ["Go timers do not fire before their duration has elapsed (Timer.notEarly hypothesis; sampled by the timing scenario)"]},
 }
+
+# extra Lean modules per property (beyond Tea.Props.Cxx and Tea.Props.Bridge.Cxx)
+_EXTRA = {
+    "C08": ["Tea.Props.BridgeInput"], "C09": ["Tea.Props.BridgeInput"], "C10": ["Tea.Props.BridgeInput"],
+    "C11": ["Tea.Props.BridgeInput"], "C15": ["Tea.Props.BridgeInput"],
+}
+
+PROPS = {}
+for _pid, _c in _CFG.items():
+    mods = []
+    if os.path.exists(os.path.join(_LEAN, "Tea", "Props", _pid + ".lean")):
+        mods.append("Tea.Props." + _pid)
+    if _pid in FACTMAP:
+        mods.append("Tea.Props.Bridge." + _pid)
+    mods += _EXTRA.get(_pid, [])
+    c = dict(_c)
+    c["modules"] = mods
+    c.setdefault("rule", "see the `rule` of each scenario set in coverage.scenarios")
+    PROPS[_pid] = c
